@@ -6,6 +6,7 @@ package main
 import (
 	"fmt"
 	"go/constant"
+	"go/token"
 	"go/types"
 	"hash/fnv"
 	"strings"
@@ -496,6 +497,32 @@ func sentinelName(v Val) (string, bool) {
 	return "", false
 }
 
+// errnoConstNames: when v is a constant of type syscall.Errno (the target of
+// errors.Is(err, syscall.ENOTDIR)), the names syscall gives that number on
+// the platform under analysis.
+func (in *Interp) errnoConstNames(v Val) map[string]bool {
+	iv, ok := v.(Iface)
+	if !ok {
+		return nil
+	}
+	n := namedOf(iv.Dyn)
+	if n == nil || n.Obj().Pkg() == nil || n.Obj().Pkg().Path() != "syscall" || n.Obj().Name() != "Errno" {
+		return nil
+	}
+	k, ok := iv.V.(Konst)
+	if !ok || k.V == nil {
+		return nil
+	}
+	out := map[string]bool{}
+	sc := n.Obj().Pkg().Scope()
+	for _, name := range sc.Names() {
+		if c, isC := sc.Lookup(name).(*types.Const); isC && types.Identical(c.Type(), n) && constant.Compare(c.Val(), token.EQL, k.V) {
+			out[name] = true
+		}
+	}
+	return out
+}
+
 // errorsIs walks the chain; abstract errno values use their Is method's
 // semantics; everything else compares by identity.
 func (in *Interp) errorsIs(err, target Val, site ssa.CallInstruction) bool {
@@ -503,6 +530,7 @@ func (in *Interp) errorsIs(err, target Val, site ssa.CallInstruction) bool {
 		return false
 	}
 	tname, tIsSentinel := sentinelName(target)
+	tErrnos := in.errnoConstNames(target)
 	for i := 0; i < 20; i++ {
 		iv, ok := err.(Iface)
 		if !ok {
@@ -512,6 +540,9 @@ func (in *Interp) errorsIs(err, target Val, site ssa.CallInstruction) bool {
 			if errnoMatches(e.Errno, tname) {
 				return true
 			}
+		}
+		if e, ok := iv.V.(*ErrObj); ok && e.Kind == "errno" && tErrnos[e.Errno] {
+			return true // errors.Is(err, syscall.ENOTDIR): the same number
 		}
 		if sn, ok := sentinelName(err); ok && tIsSentinel {
 			if sn == tname || strings.TrimPrefix(sn, "io/fs.") == strings.TrimPrefix(strings.TrimPrefix(tname, "os."), "io/fs.") {
